@@ -112,7 +112,7 @@ func init() {
 			{Fn: "H_reference", Tier: "quick", Reach: []string{"end"}},
 			{Fn: "H_callee_writes", Fuel: 30_000_000, Tier: "quick", Reach: []string{"end"}},
 		},
-		Rule:        rule + "; (shape: list / string-keyed / nested / nested with an empty inner list / list with a string key added later) x (13 aliasing routes: assignment, by-value parameter, return, into/out of a property, into/out of an element by literal, append, string key and int key, getter method / function / static method returning a stored array) x (12 mutations) x (2 directions) enumerated by solver-driven case split, element values and the written value are symbolic 64-bit ints; oracle = before/after snapshot of the other name inside the same run; shapes incl. associative arrays nested in lists and in each other; mutations incl. a leaf of a nested associative array, a reference taken on a slot, unset; H_callee_writes: 15 ways an array reaches code that writes to it (parameters of every callable kind, variadics, spread, captures, the loop variable of a by-value foreach over rows: the row inside the iterated array is the one observed), the source array is unchanged",
+		Rule:        rule + "; (shape: list / string-keyed / nested / nested with an empty inner list / list with a string key added later) x (16 aliasing routes: assignment, by-value parameter, return, into/out of a property, into/out of a static property, through a static local, into/out of an element by literal, append, string key and int key, getter method / function / static method returning a stored array) x (12 mutations) x (2 directions) enumerated by solver-driven case split, element values and the written value are symbolic 64-bit ints; oracle = before/after snapshot of the other name inside the same run; shapes incl. associative arrays nested in lists and in each other; mutations incl. a leaf of a nested associative array, a reference taken on a slot, unset; H_callee_writes: 15 ways an array reaches code that writes to it (parameters of every callable kind, variadics, spread, captures, the loop variable of a by-value foreach over rows: the row inside the iterated array is the one observed), the source array is unchanged",
 		Assumptions: []string{"sort() cells use a concrete element pool (elements are compared through their string form)"},
 		Outside:     []string{"depth-3 shapes, mixed shapes", "std/php/array builtins (only the data methods)", "closure capture (excluded by the property)"},
 	})
